@@ -1,12 +1,15 @@
-"""C16 -- catchment-grid intersection and Voronoi weights conserve area (structural clauses)."""
+"""C16 -- catchment-grid intersection and Voronoi weights conserve area (structural clauses).
+
+Kernels are read after normalisation (cnorm) and their loop bodies evaluated symbolically (ceval / cq); the wrappers
+are evaluated symbolically (pq) with the kernel's output buffers replaced by symbols named after the kernel
+parameters.  No clause compares source text."""
 import ast
 
 from ..core import AnalysisError
 from ..cfront import strip, text
-from .. import ckern, xlayer, pyxread
-from ..ceval import CEval, find_all, loop_parts, body_stmts, loop_var, stores_to
-from ..formula import Canon, Ratio, Undecided, show, num, ExprBuilder
-from ..pyfront import Mod, dotted, const_value
+from .. import ckern, xlayer, pyxread, cq, pq, cnorm, ceval
+from ..ceval import find_all, loop_parts, body_stmts, loop_var
+from ..formula import Canon, show, num
 
 EXPLANATION = (
     "c_intersect's step is evaluated symbolically for its three cases: a catchment-cell centre outside the coarse "
@@ -20,167 +23,290 @@ EXPLANATION = (
     "(lowest index wins ties, the distance is a monotone function of dx^2+dy^2 compared with itself), weights divided "
     "by the number of cells -- hence non-negative and summing to 1.  Area conservation as a number is not computed.")
 
+AF = "(csz_area/csz)*(csz_area/csz)"
+
+
+def kernel_site(sites, name):
+    st = [s for s in sites if s.shim.name == name]
+    if len(st) != 1:
+        raise AnalysisError(f"gis/grid.py: {name} call site not found")
+    return st[0]
+
+
+def run_with_havoc(f, call, argname):
+    """paths of wrapper f; after the kernel call every freshly allocated array argument is the symbol K.<kernel parameter>"""
+    before = {}
+
+    class Hook(pq.PEval):
+        def ex(self, node, env):
+            v = super().ex(node, env)
+            if any(n is call for n in ast.walk(node)):
+                for a in call.args:
+                    if isinstance(a, ast.Name) and a.id in argname:
+                        cur = env.get(a.id)
+                        if isinstance(cur, tuple) and cur and cur[0] == 'call' and cur[1] in ('zeros', 'full', 'empty', 'ones'):
+                            before[argname[a.id]] = cur
+                            env[a.id] = ('sym', 'K.' + argname[a.id])
+            return v
+    h = Hook()
+    return h.run(f), before
+
+
+def args_at_call(f, site):
+    """kernel parameter -> symbolic value of the argument, merged over the paths that reach the call"""
+    return pq.call_arguments(f, site.call, list(site.shim.params))
+
 
 def run(rep):
     rep.rule("R16.a", "c_intersect step: outside -> nothing; listed cell -> weight += factor; new cell -> appended with weight = factor, counter + 1; factor = (csz_area/csz)^2")
     rep.rule("R16.b", "wrapper: centres of the catchment cells, zeroed outputs of grid size, truncation with the kernel's count, weights scattered at (row-row_start, col-col_start) of the min..max sub-grid, parent bookkeeping")
     rep.rule("R16.c", "c_voronoi: zeroed weights, +1 to the strictly nearest point (same distance function on both sides of the comparison), division by the number of cells")
+    rep.assume("distinct pointer parameters of a kernel do not overlap (the shims pass distinct ndarray buffers)")
     K = ckern.analyze(rep.repo)
-    fi, fv = K["fns"].get("c_intersect"), K["fns"].get("c_voronoi")
-    if fi is None or fv is None:
+    if K["fns"].get("c_intersect") is None or K["fns"].get("c_voronoi") is None:
         raise AnalysisError("gis/c_grid.c: c_intersect / c_voronoi not found")
+    fi, fv = ckern.normalised(K, "c_intersect", rep.repo), ckern.normalised(K, "c_voronoi", rep.repo)
     file = fi["file"]
-    rep.unit(f"{file}: c_intersect, c_voronoi; gis/grid.py: Catchment.intersect, voronoi")
-    cn = Canon()
-    top = [s for s in fi["body"]["inner"] if s.get("kind")]
-    af = [s for s in top if s.get("kind") == "BinaryOperator" and text(s["inner"][0]) == "areafactor"]
-    okaf = False
-    if af:
-        from ..ceval import to_expr
-        okaf = cn.ratio(to_expr(af[0]["inner"][1], {})) == cn.ratio(('pow', ('div', ('sym', 'csz_area'), ('sym', 'csz')), num(2)))
-    rep.check(okaf, "R16.a", file, "c_intersect", "area factor = (csz_area / csz)^2 (ratio of cell areas)", text(af[0]["inner"][1]) if af else "", line=fi["line"])
-    loop = [s for s in top if s.get("kind") == "ForStmt"]
-    if len(loop) != 1:
-        raise AnalysisError(f"{file}: c_intersect loop not found")
-    loop = loop[0]
-    iv = loop_var(loop)
+    rep.unit(f"{file}: c_intersect, c_voronoi (normalised); gis/grid.py: Catchment.intersect, voronoi")
+    top = body_stmts(fi["body"])
+    loops = [s for s in top if s.get("kind") in ("ForStmt", "WhileStmt") and cnorm.writes(s)[1] & {"weights", "idxcells"}]
+    if len(loops) != 1:
+        raise AnalysisError(f"{file}: c_intersect main loop not found")
+    loop = loops[0]
+    lr = cq.loop_range(loop, cq.preceding(top, loop))
+    rep.check(cq.range_is(lr, "0", "nval-1"), "R16.a", file, "c_intersect", "every catchment cell is visited once", "", line=loop.get("_line"))
+    iv = lr["var"] if lr else loop_var(loop)
     stm = body_stmts(loop_parts(loop)[3])
-    rep.check(text(loop_parts(loop)[1]).replace(" ", "") == f"{iv}<nval" and text(loop_parts(loop)[0]).replace(" ", "") == f"{iv}=0", "R16.a", file, "c_intersect", "every catchment cell is visited once", "", line=loop.get("_line"))
-    search = [s for s in stm if s.get("kind") == "ForStmt"]
-    if len(search) != 1:
-        raise AnalysisError(f"{file}: c_intersect search loop not found")
-    search = search[0]
-    kv = loop_var(search)
-    xy = {text(s["inner"][0]).replace(" ", ""): text(s["inner"][1]).replace(" ", "") for s in stm if s.get("kind") == "BinaryOperator" and s.get("opcode") == "="}
-    rep.check(xy.get("xy[0]") == f"xy_area[2*{iv}]" and xy.get("xy[1]") == f"xy_area[2*{iv}+1]", "R16.a", file, "c_intersect", "point i = centre of catchment cell i", str(xy), line=loop.get("_line"))
-    call = find_all(loop, lambda n: n.get("kind") == "CallExpr" and text(n["inner"][0]) == "c_coord2cell")
-    okc = len(call) == 1 and [text(a).replace(" ", "") for a in call[0]["inner"][1:]] == ["nrows", "ncols", "xll", "yll", "csz", "1", "xy", "idxcell"]
-    rep.check(okc, "R16.a", file, "c_intersect", "the centre is located in the coarse grid with c_coord2cell(grid geometry, 1, xy, idxcell)", "", line=loop.get("_line"))
-    skip = [s for s in stm if s.get("kind") == "IfStmt" and find_all(s, lambda n: n.get("kind") == "ContinueStmt")]
-    oksk = bool(skip) and all(x in text(skip[0]["inner"][0]).replace(" ", "") for x in ("ierr>0", "*idxcell<0")) and "||" in text(skip[0]["inner"][0])
-    rep.check(oksk, "R16.a", file, "c_intersect", "centres outside the grid (cell -1) or conversion errors contribute nothing", text(skip[0]["inner"][0]) if skip else "", line=loop.get("_line"))
-    # search loop: for(k=0;k<j;k++) if(idxcells[k]==*idxcell){weights[k]+=factor; break;}
-    sinit, scond = text(loop_parts(search)[0]).replace(" ", ""), text(loop_parts(search)[1]).replace(" ", "")
-    sifs = find_all(search, lambda n: n.get("kind") == "IfStmt")
-    oksr = sinit == f"{kv}=0" and scond == f"{kv}<j" and len(sifs) == 1 and text(sifs[0]["inner"][0]).replace(" ", "") in (f"idxcells[{kv}]==*idxcell", f"*idxcell==idxcells[{kv}]")
-    incs = find_all(sifs[0], lambda n: n.get("kind") == "CompoundAssignOperator") if sifs else []
-    oksr = oksr and len(incs) == 1 and text(incs[0]).replace(" ", "") == f"weights[{kv}]+=areafactor" and bool(find_all(sifs[0], lambda n: n.get("kind") == "BreakStmt"))
-    rep.check(oksr, "R16.a", file, "c_intersect", "a centre falling in a listed cell adds the area factor to that cell's weight (once: break)", "", line=search.get("_line"))
-    newif = [s for s in stm if s.get("kind") == "IfStmt" and text(s["inner"][0]).replace(" ", "") in (f"{kv}==j", f"j=={kv}")]
-    okn = False
-    if newif:
-        ce = CEval(lambda c: False if "ncells" in show(c) else None)
-        env = {"j": ('sym', 'J0'), "areafactor": ('sym', 'AF')}
-        ce._walk(body_stmts(newif[0]["inner"][1]), env, [])
-        st = {e.arr: e for e in ce.effects if e.op == "="}
-        okn = set(st) == {"idxcells", "weights"} and st["idxcells"].idx == ('sym', 'J0') and st["weights"].idx == ('sym', 'J0') and \
-            st["weights"].val == ('sym', 'AF') and show(st["idxcells"].val) in ("A:idxcell(0)",) and cn.ratio(env["j"]) == cn.ratio(('add', ('sym', 'J0'), num(1)))
-    rep.check(okn, "R16.a", file, "c_intersect", "a centre falling in a new cell appends (cell, weight = area factor) and advances the counter by one", "", line=newif[0].get("_line") if newif else loop.get("_line"))
-    np_ = [s for s in top if s.get("kind") == "BinaryOperator" and text(s["inner"][0]).replace(" ", "") == "npoints[0]"]
-    rep.check(bool(np_) and text(np_[0]["inner"][1]).replace(" ", "") == "j", "R16.a", file, "c_intersect", "npoints[0] = number of distinct cells", "", line=fi["line"])
-    j0 = [s for s in top if s.get("kind") == "BinaryOperator" and text(s["inner"][0]) == "j" and text(s["inner"][1]) == "0"]
-    rep.check(bool(j0), "R16.a", file, "c_intersect", "counter starts at 0", "", line=fi["line"])
+    ce = cq.evaluate(stm)
+    post = cq.evaluate(top[top.index(loop) + 1:])
+    npst = cq.stores(post, "npoints")
+    cnt = None
+    if len(npst) == 1 and npst[0].val[0] == 'sym' and cq.same_expr(npst[0].idx, "0"):
+        cnt = npst[0].val[1]
+    rep.check(cnt is not None, "R16.a", file, "c_intersect", "npoints[0] = the counter of distinct cells", repr(npst)[:200], line=fi["line"])
+    if cnt is None:
+        return EXPLANATION
+    ini = [s for s in cq.preceding(top, loop) if s.get("kind") == "BinaryOperator" and s.get("opcode") == "=" and text(s["inner"][0]) == cnt and cq.same_expr(s["inner"][1], "0")]
+    rep.check(bool(ini) and cnt not in cnorm.writes({"kind": "CompoundStmt", "inner": [s for s in cq.preceding(top, loop) if s not in ini]})[0],
+              "R16.a", file, "c_intersect", "counter starts at 0", "", line=fi["line"])
+    calls_ = find_all(loop, lambda n: n.get("kind") == "CallExpr" and text(n["inner"][0]) == "c_coord2cell")
+    okc, cellname = False, None
+    if len(calls_) == 1:
+        args = calls_[0]["inner"][1:]
+        okc = len(args) == 8 and all(cq.same_expr(args[k_], w) for k_, w in enumerate(("nrows", "ncols", "xll", "yll", "csz", "1")))
+        if okc:
+            xyname, cellname = text(args[6]), text(args[7])
+            xs = {show(e.idx): e for e in ce.effects if e.arr == xyname and e.op == "=" and not e.conds}
+            okc = set(xs) >= {"0", "1"} and cq.same_expr(xs["0"].val, f"xy_area[2*{iv}]") and cq.same_expr(xs["1"].val, f"xy_area[2*{iv}+1]")
+    rep.check(okc, "R16.a", file, "c_intersect", "point i = centre of catchment cell i, located in the coarse grid with c_coord2cell(grid geometry, 1, xy, cell)", "", line=loop.get("_line"))
+    if not okc or cellname is None:
+        return EXPLANATION
+    CELL = f"{cellname}[0]"
+    alls = cq.stores(ce, "weights") + cq.stores(ce, "idxcells")
+    oksk = bool(alls) and all(cq.excluded(e.conds, f"{CELL} < 0", True) or cq.holds(e.conds, f"{CELL} >= 0", True) or _neg_disj(e.conds, f"{CELL} < 0") for e in alls)
+    rep.check(oksk, "R16.a", file, "c_intersect", "centres outside the grid (cell -1) or conversion errors contribute nothing", "", line=loop.get("_line"))
+    srch = None
+    for l in [s for s in stm if s.get("kind") == "ForStmt"]:
+        sr = cq.search(l, cq.preceding(stm, l))
+        if sr is not None:
+            srch = sr
+    oksr, okn, det = False, False, "search loop over the listed cells not recognised"
+    if srch is not None and cq.same_expr(srch["lo"], "0") and cq.same_expr(srch["hi"], f"{cnt}-1"):
+        kv = srch["var"]
+        hit = f"idxcells[{kv}] == {CELL}"
+        if srch["style"] == "break":
+            okmatch = cq.holds(srch["match"], hit, True)
+            found = srch["found_effects"]
+        else:
+            okmatch = cq.holds(srch["match"], hit, True)
+            found = [e for e in alls if not e.loops and cq.found_after(srch, e.conds) is True]
+        det = "; ".join(repr(e) for e in found)[:260]
+        oksr = okmatch and len(found) == 1 and found[0].arr == "weights" and found[0].op == "+=" and cq.same_expr(found[0].idx, kv) and cq.same_expr(found[0].val, AF)
+        new = [e for e in alls if not e.loops and cq.found_after(srch, e.conds) is False]
+        byarr = {e.arr: e for e in new}
+        okn = len(new) == 2 and set(byarr) == {"idxcells", "weights"} and all(e.op == "=" and cq.same_expr(e.idx, cnt) for e in new) and \
+            cq.same_expr(byarr["weights"].val, AF) and cq.same_expr(byarr["idxcells"].val, CELL)
+        if okn:
+            fin = [f_ for f_ in ce.finals if f_[2] == "end"]
+            adv = [f_ for f_ in fin if cq.found_after(srch, f_[1]) is False]
+            stay = [f_ for f_ in fin if cq.found_after(srch, f_[1]) is not False]
+            okn = bool(adv) and all(cnt in f_[0] and cq.same_expr(f_[0][cnt], f"{cnt}+1") for f_ in adv) and \
+                all(cnt not in f_[0] or cq.same_expr(f_[0][cnt], cnt) for f_ in stay) and len(cq.steps_of(loop, cnt)) == 1
+        others = [e for e in alls if e not in new and not any(e is f_ or (e.loops and e.line == f_.line and e.arr == f_.arr and e.op == f_.op) for f_ in found)]
+        oksr = oksr and not others
+    rep.check(oksr, "R16.a", file, "c_intersect", "a centre falling in a listed cell adds the area factor (csz_area/csz)^2 to that cell's weight, once", det, line=loop.get("_line"))
+    rep.check(okn, "R16.a", file, "c_intersect", "a centre falling in a new cell appends (cell, weight = area factor) and advances the counter by one", "", line=loop.get("_line"))
 
     # ---------------- wrapper ---------------------------------------------------------------------------------------------
     P = pyxread.load_all(rep.repo)
     shims = {cm: {sh.name: sh for sh in d["shims"]} for cm, d in P.items()}
     sites, _ = xlayer.find_sites(rep.repo, shims)
-    st = [s for s in sites if s.shim.name == "intersect"]
-    if len(st) != 1:
-        raise AnalysisError("gis/grid.py: intersect call site not found")
-    st = st[0]
+    st = kernel_site(sites, "intersect")
     f = st.func
     ok, how, _ = xlayer.error_discipline(st)
     rep.check(ok, "R16.b", "gis/grid.py", "Catchment.intersect", "kernel error code raises", how, line=st.call.lineno)
-    names = {pn: ast.unparse(v[0]) for pn, v in st.args.items()}
-    rep.check(all(names.get(k) == k for k in ("nrows", "ncols", "xll", "yll", "csz", "csz_area", "xy_area", "npoints", "idxcells", "weights")), "R16.b", "gis/grid.py", "Catchment.intersect",
-              "arguments bound to the same-named shim parameters", str(names), line=st.call.lineno)
-    asg = {}
-    for n in ast.walk(f):
-        if isinstance(n, ast.Assign):
-            for t in n.targets:
-                if isinstance(t, ast.Name):
-                    asg.setdefault(t.id, []).append(n)
-                elif isinstance(t, ast.Tuple):
-                    for e in t.elts:
-                        if isinstance(e, ast.Name):
-                            asg.setdefault(e.id, []).append(n)
-    u = lambda k, i=0: ast.unparse(asg[k][i].value).replace(" ", "") if k in asg and len(asg[k]) > i else None
-    okg = u("xll") == "grid._getsize()" and ast.unparse(asg["xll"][0].targets[0]).replace(" ", "") == "(xll,yll,csz,nrows,ncols)" and \
-        u("csz_area") == "self.flowdir._getsize()" and ast.unparse(asg["csz_area"][0].targets[0]).replace(" ", "") == "(_,_,csz_area,_,_)"
-    rep.check(okg, "R16.b", "gis/grid.py", "Catchment.intersect", "geometry of the coarse grid and cell size of the flow-direction grid", "", line=f.lineno)
-    rep.check(u("xy_area") == "self.flowdir.cell2coord(cells)" and u("cells") == "self._idxcells_area_fillediffilledelseself._idxcells_area", "R16.b", "gis/grid.py", "Catchment.intersect",
-              "points = centres of the (filled) catchment area cells", f"{u('xy_area')}; {u('cells')}", line=f.lineno)
+    pargs = args_at_call(f, st)
+    GS, FS = "grid._getsize()", "self.flowdir._getsize()"
+    geo = {"xll": f"{GS}[0]", "yll": f"{GS}[1]", "csz": f"{GS}[2]", "nrows": f"{GS}[3]", "ncols": f"{GS}[4]", "csz_area": f"{FS}[2]"}
+    okg = all(pn in pargs and pq.same(pargs[pn], w) for pn, w in geo.items())
+    rep.check(okg, "R16.b", "gis/grid.py", "Catchment.intersect", "geometry of the coarse grid and cell size of the flow-direction grid, bound to the kernel parameters of the same meaning",
+              "; ".join(f"{k_}={show(pargs.get(k_, num(0)))[:40]}" for k_ in geo), line=st.call.lineno)
+    okxy = "xy_area" in pargs and _cells_choice(pargs["xy_area"])
+    rep.check(okxy, "R16.b", "gis/grid.py", "Catchment.intersect", "points = centres of the (filled) catchment area cells", show(pargs.get("xy_area", num(0)))[:160], line=st.call.lineno)
     for pn in ("idxcells", "weights"):
         v = st.args.get(pn)
         okv = v is not None and v[1].fresh and v[1].init == ("zeros",) and v[1].shape is not None and len(v[1].shape) == 1
         rep.check(okv, "R16.b", "gis/grid.py", "Catchment.intersect", f"`{pn}`: fresh zero vector", "", line=st.call.lineno)
-    rep.check(u("idxcells", 1) == "idxcells[:npoints[0]]" and u("weights", 1) == "weights[:npoints[0]]", "R16.b", "gis/grid.py", "Catchment.intersect",
-              "outputs truncated with the number of distinct cells reported by the kernel", f"{u('idxcells', 1)}, {u('weights', 1)}", line=f.lineno)
-    okrc = u("rowcols") == "grid.cell2rowcol(idxcells)" and u("rows") == "np.unique(rowcols[:,0])" and u("cols") == "np.unique(rowcols[:,1])" and \
-        u("row_start") == "(np.min(rows),np.max(rows))" and u("col_start") == "(np.min(cols),np.max(cols))" and \
-        u("anrows") == "row_end-row_start+1" and u("ancols") == "col_end-col_start+1"
-    rep.check(okrc, "R16.b", "gis/grid.py", "Catchment.intersect", "sub-grid spans min..max row and column of the touched cells (anrows = row_end-row_start+1, ancols likewise)",
-              f"anrows={u('anrows')}, ancols={u('ancols')}", line=f.lineno)
-    sc = [n for n in ast.walk(f) if isinstance(n, ast.Assign) and isinstance(n.targets[0], ast.Subscript) and dotted(n.targets[0].value) == "weights_array"]
-    oksc = bool(sc) and ast.unparse(sc[0].targets[0].slice).replace(" ", "") == "((rowcols[:,0]-row_start)[:,None],(rowcols[:,1]-col_start)[:,None])" and \
-        ast.unparse(sc[0].value).replace(" ", "") == "weights[:,None]" and u("weights_array") == "np.zeros((anrows,ancols))"
-    rep.check(oksc, "R16.b", "gis/grid.py", "Catchment.intersect", "weight k placed at (row_k - row_start, col_k - col_start) of a zeroed sub-grid", "", line=f.lineno)
-    spa = [n for n in ast.walk(f) if isinstance(n, ast.Call) and isinstance(n.func, ast.Attribute) and n.func.attr == "set_parent_attributes"]
-    rep.check(bool(spa) and [ast.unparse(a) for a in spa[0].args] == ["grid", "row_start", "row_end", "col_start", "col_end"], "R16.b", "gis/grid.py", "Catchment.intersect",
-              "parent bookkeeping records the same row/column bounds", "", line=f.lineno)
-    g = [n for n in ast.walk(f) if isinstance(n, ast.Call) and dotted(n.func) == "Grid"]
-    okgr = bool(g) and {k.arg: ast.unparse(k.value).replace(" ", "") for k in g[0].keywords}.items() >= {"ncols": "ancols", "nrows": "anrows", "cellsize": "grid.cellsize", "xllcorner": "axll", "yllcorner": "ayll"}.items()
-    okgr = okgr and u("axll") == "np.min(coords[:,0])-grid.cellsize/2" and u("ayll") == "np.min(coords[:,1])-grid.cellsize/2" and u("coords") == "grid.cell2coord(idxcells)"
+    paths, before = run_with_havoc(f, st.call, {v[0].id: pn for pn, v in st.args.items() if isinstance(v[0], ast.Name)})
+    rets = [p for p in paths if p.how == "return"]
+    if not rets:
+        raise AnalysisError("gis/grid.py: Catchment.intersect: no returning path")
+    p = rets[-1]
+    IDX, WGT = "Kidx[:Knp[0]]", "Kwgt[:Knp[0]]"
+    kenv = {"Kidx": ('sym', 'K.idxcells'), "Kwgt": ('sym', 'K.weights'), "Knp": ('sym', 'K.npoints')}
+    P_ = lambda txt: pq.parse(txt, kenv)
+    val = p.value
+    oktr = isinstance(val, tuple) and val[0] == 'tuple' and len(val[1]) == 3 and pq.same(val[1][1], P_(IDX)) and pq.same(val[1][2], P_(WGT))
+    rep.check(oktr, "R16.b", "gis/grid.py", "Catchment.intersect", "outputs truncated with the number of distinct cells reported by the kernel",
+              show(val)[:200] if isinstance(val, tuple) else "", line=f.lineno)
+    RC = f"grid.cell2rowcol({IDX})"
+    R0, R1 = f"np.min({RC}[:, 0])", f"np.max({RC}[:, 0])"
+    C0, C1 = f"np.min({RC}[:, 1])", f"np.max({RC}[:, 1])"
+    pool = ('tuple', tuple(e.val for e in p.effects if e.val is not None) + (val,) + tuple(v for v in p.env.values() if isinstance(v, tuple)))
+    grids = pq.find(pool, lambda e: pq.call_named(e, "f:Grid"))
+    okrc = okgr = False
+    if grids:
+        g = grids[0]
+        okrc = pq.same(pq.kw_of(g, "nrows") or num(-1), P_(f"{R1} - {R0} + 1")) and pq.same(pq.kw_of(g, "ncols") or num(-1), P_(f"{C1} - {C0} + 1"))
+        XY = f"grid.cell2coord({IDX})"
+        okgr = pq.same(pq.kw_of(g, "xllcorner") or num(-1), P_(f"np.min({XY}[:, 0]) - grid.cellsize/2")) and \
+            pq.same(pq.kw_of(g, "yllcorner") or num(-1), P_(f"np.min({XY}[:, 1]) - grid.cellsize/2")) and pq.same(pq.kw_of(g, "cellsize") or num(-1), "grid.cellsize")
+    rep.check(okrc, "R16.b", "gis/grid.py", "Catchment.intersect", "sub-grid spans min..max row and column of the touched cells (nrows = row_end-row_start+1, ncols likewise)", "", line=f.lineno)
     rep.check(okgr, "R16.b", "gis/grid.py", "Catchment.intersect", "sub-grid georeferenced at the lower-left corner of its lower-left touched cell", "", line=f.lineno)
+    data = [e for e in p.effects if e.kind == 'attr' and e.target.endswith(".data")]
+    oksc = False
+    if data:
+        d = data[-1].val
+        if isinstance(d, tuple) and pq.call_named(d, "setitem"):
+            base, key, v = d[2]
+            okbase = pq.call_named(base, "zeros") and pq.same(base[2][0], P_(f"({R1} - {R0} + 1, {C1} - {C0} + 1)"))
+            forms = [(f"(({RC}[:, 0] - {R0})[:, None], ({RC}[:, 1] - {C0})[:, None])", f"{WGT}[:, None]"),
+                     (f"({RC}[:, 0] - {R0}, {RC}[:, 1] - {C0})", WGT)]
+            oksc = okbase and any(pq.same(key, P_(k_)) and pq.same(v, P_(v_)) for k_, v_ in forms)
+    rep.check(oksc, "R16.b", "gis/grid.py", "Catchment.intersect", "weight k placed at (row_k - row_start, col_k - col_start) of a zeroed sub-grid", "", line=f.lineno)
+    spa = [e for e in p.effects if e.kind == 'call' and e.target.endswith("set_parent_attributes")]
+    okpa = False
+    if spa:
+        a = spa[-1].val[2][1:]
+        okpa = len(a) == 5 and pq.same(a[0], "grid") and all(pq.same(x, P_(w)) for x, w in zip(a[1:], (R0, R1, C0, C1)))
+    rep.check(okpa, "R16.b", "gis/grid.py", "Catchment.intersect", "parent bookkeeping records the same row/column bounds", "", line=f.lineno)
 
     # ---------------- voronoi ---------------------------------------------------------------------------------------------------
-    vtop = [s for s in fv["body"]["inner"] if s.get("kind")]
+    vtop = body_stmts(fv["body"])
     vl = [s for s in vtop if s.get("kind") == "ForStmt"]
-    zero = [l for l in vl if stores_to(l, "weights") and not find_all(l, lambda n: n.get("kind") == "CompoundAssignOperator")]
-    norm = [l for l in vl if find_all(l, lambda n: n.get("kind") == "CompoundAssignOperator" and n.get("opcode") == "/=")]
     main = [l for l in vl if find_all(l, lambda n: n.get("kind") == "ForStmt" and n is not l)]
-    if len(zero) != 1 or len(norm) != 1 or len(main) != 1:
-        raise AnalysisError(f"{file}: c_voronoi loops not recognised")
-    zv = loop_var(zero[0])
-    z = stores_to(zero[0], "weights")
-    rep.check(text(loop_parts(zero[0])[1]).replace(" ", "") == f"{zv}<npoints" and text(z[0]["inner"][1]) == "0" and vtop.index(zero[0]) < vtop.index(main[0]), "R16.c", file, "c_voronoi", "weights zeroed for all points before counting", "", line=zero[0].get("_line"))
-    nv = loop_var(norm[0])
-    nd = find_all(norm[0], lambda n: n.get("kind") == "CompoundAssignOperator")
-    rep.check(text(loop_parts(norm[0])[1]).replace(" ", "") == f"{nv}<npoints" and text(nd[0]).replace(" ", "") == f"weights[{nv}]/=(double)ncells" and vtop.index(norm[0]) > vtop.index(main[0]),
-              "R16.c", file, "c_voronoi", "weights divided by the number of catchment cells (sum = 1)", text(nd[0]) if nd else "", line=norm[0].get("_line"))
-    mv = loop_var(main[0])
-    mstm = body_stmts(loop_parts(main[0])[3])
-    inner = [s for s in mstm if s.get("kind") == "ForStmt"][0]
-    jv = loop_var(inner)
-    istm = body_stmts(loop_parts(inner)[3])
-    d = {text(s["inner"][0]): text(s["inner"][1]).replace(" ", "") for s in istm if s.get("kind") == "BinaryOperator" and s.get("opcode") == "="}
-    okd = d.get("dx") == f"xy[0]-xypoints[2*{jv}]" and d.get("dy") == f"xy[1]-xypoints[2*{jv}+1]" and d.get("dist") in ("sqrt(dx*dx+dy*dy)", "dx*dx+dy*dy")
-    rep.check(okd, "R16.c", file, "c_voronoi", "distance from the cell centre to point j is a monotone function of dx^2 + dy^2", str(d), line=inner.get("_line"))
-    sel = [s for s in istm if s.get("kind") == "IfStmt"]
-    oks = len(sel) == 1 and text(sel[0]["inner"][0]).replace(" ", "") == "dist<distmin"
-    if oks:
-        a2 = {text(s["inner"][0]): text(s["inner"][1]).replace(" ", "") for s in find_all(sel[0], lambda n: n.get("kind") == "BinaryOperator" and n.get("opcode") == "=")}
-        oks = a2 == {"distmin": "dist", "jmin": jv}
-    other = [s for s in istm if s.get("kind") in ("IfStmt",) and s is not (sel[0] if sel else None)]
-    rep.check(oks and not other and text(loop_parts(inner)[1]).replace(" ", "") == f"{jv}<npoints" and text(loop_parts(inner)[0]).replace(" ", "") == f"{jv}=0", "R16.c", file, "c_voronoi",
-              "nearest point = strict minimum of that distance over all points, compared with itself (lowest index wins ties); no other pruning test", "", line=inner.get("_line"))
-    pre = {text(s["inner"][0]): text(s["inner"][1]).replace(" ", "") for s in mstm if s.get("kind") == "BinaryOperator" and s.get("opcode") == "="}
-    rep.check(pre.get("jmin") == "0" and pre.get("distmin") is not None and float(pre["distmin"]) >= 1e20 if pre.get("distmin") else False, "R16.c", file, "c_voronoi", "search initialised with an (effectively) infinite distance", str(pre), line=main[0].get("_line"))
-    inc = [s for s in mstm if s.get("kind") == "CompoundAssignOperator"]
-    rep.check(len(inc) == 1 and text(inc[0]).replace(" ", "") == "weights[jmin]+=1", "R16.c", file, "c_voronoi", "each catchment cell adds exactly 1 to its nearest point", "", line=main[0].get("_line"))
-    gc = find_all(main[0], lambda n: n.get("kind") == "CallExpr" and text(n["inner"][0]) == "getcoord")
-    rep.check(len(gc) == 1 and [text(a).replace(" ", "") for a in gc[0]["inner"][1:]] == ["nrows", "ncols", "xll", "yll", "csz", "idxcell", "xy"] and pre.get("idxcell") == f"idxcells_area[{mv}]",
-              "R16.c", file, "c_voronoi", "cell centre from getcoord of catchment cell i", "", line=main[0].get("_line"))
-    sv = [s for s in sites if s.shim.name == "voronoi"]
-    if len(sv) != 1:
-        raise AnalysisError("gis/grid.py: voronoi call site not found")
-    sv = sv[0]
+    if len(main) != 1:
+        raise AnalysisError(f"{file}: c_voronoi main loop not recognised")
+    main = main[0]
+    pre_l = [l for l in vl if vtop.index(l) < vtop.index(main)]
+    post_l = [l for l in vl if vtop.index(l) > vtop.index(main)]
+    okz = False
+    for l in pre_l:
+        lr_ = cq.loop_range(l, cq.preceding(vtop, l))
+        ez = cq.stores(cq.evaluate(body_stmts(loop_parts(l)[3])), "weights")
+        if cq.range_is(lr_, "0", "npoints-1") and len(ez) == 1 and ez[0].op == "=" and cq.same_expr(ez[0].val, "0") and cq.same_expr(ez[0].idx, lr_["var"]) and not ez[0].conds:
+            okz = True
+    rep.check(okz, "R16.c", file, "c_voronoi", "weights zeroed for all points before counting", "", line=main.get("_line"))
+    okn_ = False
+    for l in post_l:
+        lr_ = cq.loop_range(l, cq.preceding(vtop, l))
+        en = cq.stores(cq.evaluate(body_stmts(loop_parts(l)[3])), "weights")
+        if cq.range_is(lr_, "0", "npoints-1") and len(en) == 1 and cq.same_expr(en[0].idx, lr_["var"]) and not en[0].conds:
+            e = en[0]
+            v_ = lr_["var"]
+            okn_ = (e.op == "/=" and cq.same_expr(e.val, "ncells")) or (e.op == "=" and cq.same_expr(e.val, f"weights[{v_}]/ncells")) or \
+                (e.op == "*=" and cq.same_expr(e.val, "1/ncells"))
+    rep.check(okn_, "R16.c", file, "c_voronoi", "weights divided by the number of catchment cells (sum = 1)", "", line=main.get("_line"))
+    mlr = cq.loop_range(main, cq.preceding(vtop, main))
+    mv = mlr["var"] if mlr else loop_var(main)
+    rep.check(cq.range_is(mlr, "0", "ncells-1"), "R16.c", file, "c_voronoi", "every catchment cell is visited once", "", line=main.get("_line"))
+    mstm = body_stmts(loop_parts(main)[3])
+    inner = [s for s in mstm if s.get("kind") == "ForStmt"]
+    if len(inner) != 1:
+        raise AnalysisError(f"{file}: c_voronoi point loop not recognised")
+    inner = inner[0]
+    ilr = cq.loop_range(inner, cq.preceding(mstm, inner))
+    jv = ilr["var"] if ilr else loop_var(inner)
+    prece = cq.evaluate(cq.preceding(mstm, inner), oracle=lambda c: False)
+    cellx = f"idxcells_area[{mv}]"
+    colx, rowx = f"({cellx} % ncols)", f"(({cellx} - {cellx} % ncols)/ncols)"
+    cx = [e for e in prece.effects if e.op == "=" and cq.same_expr(e.val, f"xll + csz*({colx} + 0.5)")]
+    cy = [e for e in prece.effects if e.op == "=" and cq.same_expr(e.val, f"yll + csz*((nrows - 1 - {rowx}) + 0.5)")]
+    okcen = len(cx) == 1 and len(cy) == 1 and cx[0].arr == cy[0].arr
+    rep.check(okcen, "R16.c", file, "c_voronoi", "cell centre of catchment cell i: (xll + csz (col + 1/2), yll + csz (nrows-1-row + 1/2))", "", line=main.get("_line"))
+    if not okcen:
+        return EXPLANATION
+    X, Y = f"{cx[0].arr}[{show(cx[0].idx)}]", f"{cy[0].arr}[{show(cy[0].idx)}]"
+    D2 = f"({X} - xypoints[2*{jv}])*({X} - xypoints[2*{jv}]) + ({Y} - xypoints[2*{jv}+1])*({Y} - xypoints[2*{jv}+1])"
+    ice = cq.evaluate(body_stmts(loop_parts(inner)[3]))
+    sel_ok, seld = False, ""
+    upd = [f_ for f_ in ice.finals if any(t for _, t in f_[1])]
+    keep = [f_ for f_ in ice.finals if not any(t for _, t in f_[1])]
+    if len(ice.finals) == 2 and len(upd) == 1 and len(keep) == 1 and len(upd[0][1]) == 1:
+        env_u = upd[0][0]
+        cond, _t = upd[0][1][0]
+        changed = {k_: v for k_, v in env_u.items() if "[" not in k_}
+        dmin = [k_ for k_, v in changed.items() if cq.same_expr(v, f"sqrt({D2})") or cq.same_expr(v, D2)]
+        jmin = [k_ for k_, v in changed.items() if cq.same_expr(v, jv)]
+        if len(dmin) == 1 and len(jmin) == 1 and len(changed) == 2:
+            dist = changed[dmin[0]]
+            sel_ok = cq.same_cond(cond, ('cmp', '<', dist, ('sym', dmin[0])), False) and not [k_ for k_ in keep[0][0] if "[" not in k_]
+            seld = f"minimum `{dmin[0]}`, arg-min `{jmin[0]}`"
+            pre = {}
+            for s in cq.preceding(mstm, inner):
+                if s.get("kind") == "BinaryOperator" and s.get("opcode") == "=" and strip(s["inner"][0]).get("kind") == "DeclRefExpr":
+                    pre[text(s["inner"][0])] = s["inner"][1]
+            big = False
+            if dmin[0] in pre:
+                try:
+                    big = float(Canon().ratio(ceval.to_expr(pre[dmin[0]], {})).cval()) >= 1e20
+                except Exception:
+                    big = False
+            rep.check(big and jmin[0] in pre and cq.same_expr(pre[jmin[0]], "0"), "R16.c", file, "c_voronoi", "search initialised with an (effectively) infinite distance and index 0", "", line=main.get("_line"))
+            mce = cq.evaluate(mstm, oracle=lambda c: False if "idxcells_area" in show(c) or show(c).replace(" ", "") in ("(0>0)",) else None)
+            inc = [e for e in cq.stores(mce, "weights") if not e.loops]
+            rep.check(len(inc) == 1 and inc[0].op == "+=" and cq.same_expr(inc[0].val, "1") and cq.same_expr(inc[0].idx, jmin[0]) and not cq.stores(ice, "weights"),
+                      "R16.c", file, "c_voronoi", "each catchment cell adds exactly 1 to its nearest point", "", line=main.get("_line"))
+    rep.check(sel_ok and cq.range_is(ilr, "0", "npoints-1") and not ilr["extra"], "R16.c", file, "c_voronoi",
+              "nearest point = strict minimum over all points of a monotone function of dx^2 + dy^2, compared with itself (lowest index wins ties); no other pruning test", seld, line=inner.get("_line"))
+    sv = kernel_site(sites, "voronoi")
     ok, how, _ = xlayer.error_discipline(sv)
     rep.check(ok, "R16.c", "gis/grid.py", "voronoi", "kernel error code raises", how, line=sv.call.lineno)
-    names = {pn: ast.unparse(v[0]) for pn, v in sv.args.items()}
-    rep.check(all(names.get(k) == k for k in ("nrows", "ncols", "xll", "yll", "csz", "idxcells_area", "xypoints", "weights")), "R16.c", "gis/grid.py", "voronoi", "arguments bound to the same-named shim parameters", str(names), line=sv.call.lineno)
-    vf = sv.func
-    geo = [n for n in ast.walk(vf) if isinstance(n, ast.Assign) and ast.unparse(n).replace(" ", "") == "xll,yll,csz,nrows,ncols=catchment._flowdir._getsize()"]
-    rep.check(bool(geo), "R16.c", "gis/grid.py", "voronoi", "geometry of the catchment's flow-direction grid", "", line=vf.lineno)
+    vargs = args_at_call(sv.func, sv)
+    VG = "catchment._flowdir._getsize()"
+    vgeo = {"xll": f"{VG}[0]", "yll": f"{VG}[1]", "csz": f"{VG}[2]", "nrows": f"{VG}[3]", "ncols": f"{VG}[4]"}
+    rep.check(all(pn in vargs and pq.same(vargs[pn], w) for pn, w in vgeo.items()), "R16.c", "gis/grid.py", "voronoi",
+              "geometry of the catchment's flow-direction grid bound to the kernel parameters of the same meaning",
+              "; ".join(f"{k_}={show(vargs.get(k_, num(0)))[:50]}" for k_ in vgeo), line=sv.call.lineno)
     return EXPLANATION
+
+
+def _neg_disj(conds, want):
+    """`want` is a disjunct of a condition that is false on the path"""
+    cn = Canon()
+    w = cq.cond_atoms(want, True, None, cn)
+    for c, t in conds:
+        if t:
+            continue
+        a = cq.cond_atoms(c, None, None, cn)
+        parts = a[1] if isinstance(a, tuple) and a[0] == 'or' else [a]
+        if any(w == p_ for p_ in parts):
+            return True
+    return False
+
+
+def _cells_choice(e):
+    """centres of self._idxcells_area_filled when `filled` else of self._idxcells_area, through flowdir.cell2coord"""
+    want = pq.parse("self.flowdir.cell2coord(self._idxcells_area_filled if filled else self._idxcells_area)")
+    alt = pq.parse("self.flowdir.cell2coord(self._idxcells_area if not filled else self._idxcells_area_filled)")
+    return pq.same(e, want) or pq.same(e, alt)
